@@ -12,7 +12,8 @@ CONSTANTS MaxT, MaxGroupT, MaxBody
 
 I(m) == PIns(m, <<>>)
 Units == { I("a"), PIns("a", <<OLit("x")>>) }
-Groups == { PAnd(<<I("a"), I("b")>>), POr(<<I("a"), I("b")>>), PNot(I("a")),
+Groups == { PAnd(<<WithTimes(I("a"), 2, 2)>>), POr(<<WithTimes(I("a"), 2, 3)>>), PAnd(<<PAnd(<<WithTimes(I("a"), 3, 3)>>)>>),
+            PAnd(<<I("a"), I("b")>>), POr(<<I("a"), I("b")>>), PNot(I("a")),
             PPerm(<<I("a"), I("b")>>), POr(<<PAnd(<<I("a"), I("b")>>), I("c")>>) }
 Bounds(mx) == { <<lo, hi>> \in (0..mx) \X (0..mx) : lo <= hi }
 
@@ -35,12 +36,19 @@ Patterns == { PAnd(<<I("p"), r, I("q")>>) : r \in Repeated }
        \cup Unrolled
 
 Bodies == { <<"a", <<>> >>, <<"a", <<"x">> >>, <<"b", <<>> >>, <<"c", <<>> >> }
+\* runs of a long enough for nested repetition counts (2 x 3)
+LongRuns == { WithAddrs(<< <<"p", <<>> >> >> \o [k \in 1..n |-> <<"a", <<>> >>] \o << <<"q", <<>> >> >>) : n \in 0..7 }
 Inner == SeqsBetween(Bodies, 0, MaxBody)
 Listings == { WithAddrs(<< <<"p", <<>> >> >> \o s \o << <<"q", <<>> >> >>) : s \in Inner }
-       \cup { WithAddrs(s) : s \in SeqsBetween(Bodies, 0, 2) }
+       \cup { WithAddrs(s) : s \in SeqsBetween(Bodies, 0, 2) } \cup LongRuns
        \* runs of two-instruction units in alternating orders (a b b a ...), whatever MaxBody is
        \cup { WithAddrs(<< <<"p", <<>> >> >> \o s \o << <<"q", <<>> >> >>)
               : s \in SeqsBetween({ <<"a", <<>> >>, <<"b", <<>> >> }, 4, 4) }
 
 Universe == [patterns |-> SetToSeq(Patterns), listings |-> SetToSeq(Listings)]
+\* the repeated form under mnemonics-full-match: runs mixing `a' with a mnemonic that merely contains it
+PatternsM == { PAnd(<<I("p"), WithTimes(I("a"), b[1], b[2]), I("q")>>) : b \in Bounds(MaxT) }
+        \cup { PAnd(<<I("p")>> \o Rep(I("a"), n) \o <<I("q")>>) : n \in 0..MaxT }
+ListingsM == { WithAddrs(<< <<"p", <<>> >> >> \o s \o << <<"q", <<>> >> >>) : s \in SeqsBetween({ <<"a", <<>> >>, <<"ab", <<>> >> }, 0, 3) }
+UniverseM == [patterns |-> SetToSeq(PatternsM), listings |-> SetToSeq(ListingsM)]
 =============================================================================
